@@ -19,7 +19,7 @@ def _report(run, unit, t0, status="ok", err=None, kinds=None):
             by[o.backend] = by.get(o.backend, 0) + 1
     return dict(unit=unit, status=status, error=err, kinds=kinds or {}, obligations=len(obs),
                 proved=sum(o.status == "proved" for o in obs),
-                failed=[o.as_dict() for o in obs if o.status == "failed"][:12],
+                failed=core.failed_sample(obs, 12),
                 nfailed=sum(o.status == "failed" for o in obs), unknown=sum(o.status == "unknown" for o in obs),
                 undecided_notes=run.undecided[:5], stats=run.stats.as_dict(), by_backend=by,
                 wall_s=round(time.time() - t0, 2))
